@@ -2,3 +2,4 @@ import PG.Props.C09
 #print axioms PG.C09_wf
 #print axioms PG.C09_check
 #print axioms PG.C09_selftest
+#print axioms PG.C09_display_total
